@@ -708,3 +708,5 @@ TECHNIQUE = 'Lean 4 refinement proof (bookkeeping ⊑ hierarchy) by induction ov
 from harness import dynflow as _df                      # noqa: E402
 from harness.mixins import add_family as _add_family    # noqa: E402
 _add_family(globals(), _df, 'dynflow', _df.oracle, share=0.15)
+from harness import deadwriter as _dw                   # noqa: E402
+_add_family(globals(), _dw, 'deadwriter', _dw.oracle, share=0.08)
